@@ -216,6 +216,17 @@ func AsFortran(backing interface{}, argMask ...[]bool) ConsOpt {
 	return f
 }
 
+// orderOf makes the tensor under construction column-major when o is: the fresh result of an
+// operation whose kernels walk the storage of their operands takes the operands' data order.
+func orderOf(o DataOrder) ConsOpt {
+	f := func(t Tensor) {
+		if o.IsColMajor() {
+			AsFortran(nil)(t)
+		}
+	}
+	return f
+}
+
 func AsDenseDiag(backing interface{}) ConsOpt {
 	f := func(t Tensor) {
 		switch tt := t.(type) {
